@@ -15,7 +15,7 @@ for f in d["findings"]:
 # known entries of defects that were repaired since (their fixed entries are the Cxx-X-<commit> ones); builders'
 # branches still carry them, so a merge can bring them back: a listed-as-known defect would be tolerated if it returned
 SUPERSEDED = set("""C11-F1 C11-F2 C11-F3 C11-F4 C10-F2 C10-F3 C10-F4 C16-F1 C08-F1 C08-F3 C08-F5 C07-F3 C07-F4 C07-F5
-C07-F10 C07-F11 C07-F12 C07-R1 C15-F1 C15-F2 C15-F4 C15-F5 C07-F7 C07-F8 C07-F9 C04-F2 C17-F4 C10-F9 C06-F7r C09-F3 C17-F5 C06-F9 C08-F6""".split())
+C07-F10 C07-F11 C07-F12 C07-R1 C15-F1 C15-F2 C15-F4 C15-F5 C07-F7 C07-F8 C07-F9 C04-F2 C17-F4 C10-F9 C06-F7r C09-F3 C17-F5 C06-F9 C08-F6 C15-F7 C15-F8 C15-F9 C15-F10 C10-F10""".split())
 out = [by[i] for i in order if not (i in SUPERSEDED and by[i]["status"] == "known")]
 bad = [f["id"] for f in out if f["status"] == "fixed" and not str(f.get("line", "")).startswith("fixed: property=%s " % f["property"])]
 d["findings"] = out
